@@ -101,6 +101,87 @@ def run(idx: Index, rep: Report, tier: str):
     from . import C03 as _C03
     _C03.check_dispatch(idx, rep)                 # the operator encoder's own dispatch and refusals (zero electrons is a valid sector)
     check_vector_to_circuit(idx, rep)
+    check_vector_ordering(idx, rep)
+    check_default_spin_agreement(idx, rep)
+
+
+def check_vector_ordering(idx: Index, rep: Report):
+    """get_mapped_vector folded with the state encoders replaced by recorders, on a vector of position labels: every encoder receives the positions
+    interleaved (alpha0, beta0, alpha1, ...) or all alpha then all beta exactly as the *operator* encoder of the same name does (C03.K8.spin-ordering:
+    re-indexed iff up_then_down, the symmetry-conserving one always alpha-then-beta), for every spelling of the encoding name"""
+    rule = "K8.vector-ordering"
+    from ..consteval import IntArray, Raised, Undecidable
+    from ..rules.circuitsem import make_folder
+    f = idx.function(f"{SV}::get_mapped_vector")
+    labels = [0, 1, 2, 3, 4, 5, 6, 7]
+    blocked = labels[::2] + labels[1::2]
+    n = 0
+    for mp0 in ("JW", "BK", "SCBK", "JKMN"):
+        for mp in (mp0, mp0.lower(), mp0.capitalize()):
+            for utd in (False, True):
+                seen = []
+
+                def enc(tag):
+                    def _f(a, k):
+                        seen.append((tag, a))
+                        return a[0]
+                    return _f
+                fo = make_folder(idx, SV, ctors={"do_bk_transform": enc("BK"), "do_scbk_transform": enc("SCBK"), "do_jkmn_transform": enc("JKMN")})
+                try:
+                    out = fo.run_function(f.node, {"vector": IntArray(labels), "mapping": mp, "up_then_down": utd})
+                except Undecidable as e:
+                    raise AnalysisError(f"get_mapped_vector not foldable for {mp}, up_then_down={utd}: {e}")
+                except Raised as e:
+                    rep.violation(rule, f, f.node, text=f"{mp}, up_then_down={utd}", what="every supported encoding name is dispatched", reason=f"raises {e.exc_type}")
+                    continue
+                want = blocked if (utd or mp0 == "SCBK") else labels
+                got_vec = seen[0][1][0] if seen else out
+                got = list(got_vec.v) if isinstance(got_vec, IntArray) else got_vec
+                ok = got == want and (mp0 == "JW" and not seen or len(seen) == 1 and seen[0][0] == mp0)
+                if mp0 == "SCBK" and seen:
+                    ok = ok and len(seen[0][1]) == 2 and seen[0][1][1] == len(labels)
+                n += 1
+                rep.decide(ok, rule, f, f.node, text=f"{mp}, up_then_down={utd}: occupations reaching the {mp0} state encoder",
+                           what="the occupation vector is handed to the state encoder in the spin-orbital order the operator encoder of the same name uses "
+                                "(alpha-then-beta iff requested; always for the symmetry-conserving encoding), with alpha before beta",
+                           reason=f"the encoder {[t for t, _ in seen] or 'none'} receives positions {got}, expected {want}")
+    rep.floor("vector orderings folded", n, 24)
+
+
+def check_default_spin_agreement(idx: Index, rep: Report):
+    """When no spin is given, the operator side (fermion_to_qubit_mapping defaults spin to 0) and the vector side (get_vector fills the first n positions)
+    must agree on the number of alpha electrons also for odd electron numbers - the parity factor of the symmetry-conserving encoding depends on it.
+    Both are folded: the alpha count of the occupation vector get_vector builds, and the n_alpha of the operator encoder at spin = 0."""
+    rule = "K8.default-spin"
+    from ..consteval import Folder, IntArray, Raised, Undecidable
+    from ..rules.circuitsem import make_folder
+    gv = idx.function(f"{SV}::get_vector")
+    enc = idx.function(f"{SCBK}::symmetry_conserving_bravyi_kitaev")
+    na = [x for x in own_nodes(enc.node) if isinstance(x, ast.Assign) and norm(x.targets[0]) == "n_alpha"]
+    if len(na) != 1:
+        raise AnalysisError("scBK: single n_alpha assignment expected")
+    f2q = idx.function("tangelo/toolboxes/qubit_mappings/mapping_transform.py::fermion_to_qubit_mapping")
+    dflt = dict(zip([a.arg for a in f2q.node.args.args][-len(f2q.node.args.defaults):], f2q.node.args.defaults)).get("spin")
+    if dflt is None or not isinstance(dflt, ast.Constant):
+        raise AnalysisError("fermion_to_qubit_mapping: default of `spin` not a literal")
+    bad = []
+    n = 0
+    for n_so in (4, 6, 8):
+        for ne in range(0, n_so + 1):
+            for spin_arg in (None, 0):
+                fo = make_folder(idx, SV, ctors={"get_mapped_vector": lambda a, k: a[0], "np.zeros": lambda a, k: IntArray([0] * a[0])})
+                try:
+                    vec = fo.run_function(gv.node, {"n_spinorbitals": n_so, "n_electrons": ne, "mapping": "JW", "up_then_down": False, "spin": spin_arg})
+                    op_na = Folder(env={"n_electrons": ne, "spin": dflt.value if dflt.value is not None else 0}).expr(na[0].value)
+                except (Undecidable, Raised) as e:
+                    raise AnalysisError(f"default-spin fold failed for ({n_so}, {ne}): {e}")
+                occ = list(vec.v) if isinstance(vec, IntArray) else list(vec)
+                n += 1
+                if sum(occ[0::2]) != op_na or sum(occ) != ne:
+                    bad.append(f"{ne} electrons in {n_so} spin-orbitals: the vector has {sum(occ[0::2])} alpha electrons, the operator encoder assumes {op_na}")
+    rep.decide(not bad, rule, enc, na[0], text=f"default spin: alpha count of get_vector(spin=None) == n_alpha of the scBK operator encoder at spin={dflt.value} ({n} cases, odd electron numbers included)",
+               what="without an explicit spin, reference vector and operator encoder assume the same number of alpha electrons (the extra electron of an odd count is alpha)",
+               reason="; ".join(bad[:3]))
 
 
 def check_deleted_qubits(idx: Index, rep: Report):
